@@ -7,7 +7,7 @@ Import ListNotations.
 Open Scope N_scope.
 
 Definition chunk_bytes (c : chunk) : bytes :=
-  match c with CWrite p => p | CString p => p | CReadFrom p => p end.
+  match c with CWrite p => p | CString p => p | CReadFrom p => p | CReadFromE p => p end.
 
 (* the application data of an operation *)
 Definition op_type (o : wop) : N :=
